@@ -4,6 +4,7 @@ C16 — the compression hint decides how a content is stored.
 import JubakoModel.Model.ContentSpec
 import JubakoModel.Lemmas.Creator
 import JubakoModel.Lemmas.Verbatim
+import JubakoModel.Lemmas.FuncsContent
 
 namespace Jubako
 
@@ -184,5 +185,18 @@ theorem c16_file_no_compression_verbatim (H : Bytes → Bytes) (codec : Codec)
 example := @ContentFileExample.item0_verbatim
 example := @ContentFileExample.item1_compressed
 example := @ContentFileExample.item1_not_verbatim
+
+/-- the source-side hint -/
+def Hint.toSrc : Hint → Generated.SrcCompHint
+  | .yes => .yes | .no => .no | .detect => .detect
+
+/-- **The storage-class decision of the model is the source's**: `ContentPackCreator::detect_compression`
+    (`creator/content_pack/creator.rs`) translated on every run — a pack that does not compress stores raw
+    whatever the hint; otherwise `Yes` compresses, `No` does not, and only `Detect` consults the entropy
+    heuristic (an arbitrary bit here: the head of the content is read and the content rewound, which the
+    translation drops). -/
+theorem c16_decision_is_source_decision (pc : Bool) (hint : Hint) (h : Bool) :
+    detectCompression pc hint h = Generated.detectCompression (!pc) hint.toSrc h := by
+  cases pc <;> cases hint <;> rfl
 
 end Jubako
